@@ -154,7 +154,9 @@ func c20Writer(c *fw.Case) {
 				model = append(model, add...)
 			}
 		}
-		ctx := func() string { return fmt.Sprintf("after op %d of %d (last ops %v), model has %d octets, failed=%v", i, n, trace, len(model), failed) }
+		ctx := func() string {
+			return fmt.Sprintf("after op %d of %d (last ops %v), model has %d octets, failed=%v", i, n, trace, len(model), failed)
+		}
 		err := w.Error()
 		if failed {
 			if err == nil {
